@@ -57,10 +57,20 @@ def get_header(harness):
         import subprocess
         o = subprocess.run([harness, "capture", "statics"], input=b" \n", capture_output=True).stdout.decode()
         d = parse_fields(o.strip())
-        g = unhexs(d["statics"])
-        i = g.index(b"\npub static STATICS")
-        _header_cache[harness] = g[:i]
+        try:
+            g = unhexs(d["statics"])
+            i = g.index(b"\npub static STATICS")
+            _header_cache[harness] = g[:i]
+        except (KeyError, ValueError):
+            # a StaticFiles object that adds nothing wrote no (complete) module: remembered, and reported by the check as a violation
+            # with the empty history as the failing input; the header is then read off a one-file history
+            HEADER_PROBLEM.append(o.strip()[:300])
+            o2 = subprocess.run([harness, "capture", "statics"], input=b"D:612e62:78\n", capture_output=True).stdout.decode()
+            g = unhexs(parse_fields(o2.strip()).get("statics", "-"))
+            i = g.find(b"\n/// From ")
+            _header_cache[harness] = g[:i] if i >= 0 else g
     return _header_cache[harness]
+HEADER_PROBLEM = []
 
 def run_capture(harness, stage, lines, shards=NPROC):
     """like run_lines but through the capture wrapper: binary capture <stage>"""
